@@ -83,8 +83,41 @@ func hostileFileSuite() Suite {
 	}
 }
 
+// MixedExec routes library ops to ImplLib and everything else to ImplCodec.
+type MixedExec struct {
+	lib *ImplLib
+}
+
+func NewMixedExec() *MixedExec { return &MixedExec{lib: NewImplLib()} }
+func (m *MixedExec) Cleanup()  { m.lib.Cleanup() }
+func (m *MixedExec) Exec(line string) string {
+	if o := m.lib.Exec(line); o != "bad-op" {
+		return o
+	}
+	return ImplCodec{}.Exec(line)
+}
+
+func canonMixed(s string) string { return canonObs(stripAlloc(s)) }
+
+func validateSuite() Suite {
+	return Suite{
+		Name:   "validate",
+		MkExec: func() Executor { return NewMixedExec() },
+		Canon:  canonMixed,
+		Gen:    func(r *Rng, i int, tier string) []Op { return genValidateOps(r) },
+		Cases: func(tier string) int {
+			if tier == "thorough" {
+				return 30000
+			}
+			return 1500
+		},
+	}
+}
+
 func suitesFor(prop string) []Suite {
 	switch prop {
+	case "C07":
+		return []Suite{validateSuite()}
 	case "C15":
 		return []Suite{hostileCodecSuite(), hostileFileSuite()}
 	case "C14":
